@@ -42,7 +42,7 @@ CLAIMED["C18"] = ("DESIGN.md §4 C18",
     "trusted: pysym, regex alphabet-partition model, float(str) outcome model; outside: longer strings, fixture formulas; reader output limited to string+integer+reference operands, one operator, one function")
 CLAIMED["C11"] = ("DESIGN.md §4 C11",
     "Row/column arguments are unbounded symbolic ints: z3 shows Table.cell, write, set_cell_style (through "
-    "_validate_cell_coords) and iter_rows/iter_cols of the real code address exactly the stated cell/rectangle, agree with "
+    "_validate_cell_coords) and iter_rows/iter_cols (cell objects and values_only) of the real code address exactly the stated cell/rectangle, agree with "
     "the A1 form, raise IndexError outside, and grow the table to exactly the needed size (small-scope shapes); symbolic A1 "
     "text of 1-3 letters and 1..8 digits with optional '$' names the position its letters and digits say and is refused at/after the limits; "
     "a reference used again after the table shrank grows it again, and a reference read again after an insertion or deletion names "
@@ -52,7 +52,7 @@ CLAIMED["C11"] = ("DESIGN.md §4 C11",
 
 CLAIMED["C03"] = ("DESIGN.md §4 C03",
     "One inductive step from an arbitrary valid table state: for add_row/add_column/delete_row/delete_column/write with "
-    "every integer start index (or None), counts 1..3 and optional default, z3 shows the real Table code yields exactly the "
+    "every integer start index (or None), counts 1..3 and a default value that is absent, a text, the number 0 or the empty text, z3 shows the real Table code yields exactly the "
     "grid a plain list-of-lists yields, restores the representation invariant (each cell reports its own position), and "
     "rejects out-of-range starts without change. By induction: histories of any length over these operations (small-scope shapes). "
     "Two consecutive real model.add_table calls (over an attribute-bag object store) give tables that share none of their "
@@ -64,7 +64,8 @@ CLAIMED["C12"] = ("DESIGN.md §4 C12",
     "All rectangles in tables up to 3x3 (and disjoint pairs given as a list): z3 shows anchor, placeholders, untouched cells "
     "and merge_ranges of the real merge_cells/_set_merge are exactly the rectangle; the real merge-map writer/reader pair is "
     "checked as a codec over symbolic origins within the table limits; a merge recorded by a merge-owner dependency and a merge "
-    "saved to the region map are both seen by a fresh reader; merge_ranges read between two merges lists exactly the rectangles so far; "
+    "saved to the region map are both seen by a fresh reader; columns appended to the right of a rectangle leave it alone; "
+    " merge_ranges read between two merges lists exactly the rectangles so far; "
     "one insertion step after a merge. Two known findings.",
     "trusted: pysym; record stubs for protobuf CellID/TableSize (uint32 range enforced); outside: reload through real archives")
 
@@ -125,7 +126,7 @@ CLAIMED["C02"] = ("DESIGN.md §4 C02",
 CLAIMED["C16"] = ("DESIGN.md §4 C16",
     "The real row_height/col_width readers and recalculate_row_headers/recalculate_column_headers writers are run as a "
     "read-write-reopen cycle (1..3 times) over header records with symbolic stored sizes 1..10000 points, borders of width "
-    "0/1/3, queried or not, set through the API or not, the sized column with cells of its own or completely covered by a "
+    "0/1/3, queried or not, set through the API or not, the sized column (or row) with cells of its own or completely covered by a "
     "merge: z3 shows sizes come back equal and every row/column keeps its header record (known finding: drift with borders "
     ">= 2); header-count setters reject every int outside 0..min(size,5) without change.",
     "trusted: pysym, exact half-integer float model; header records are attribute bags; outside: names, captions, "
@@ -174,7 +175,8 @@ CLAIMED["C09"] = ("DESIGN.md §4 C09",
     "whole-row / whole-column spans and single-axis references for every row / column), and the printed text is read back "
     "by an independent A1 parser; cross-table references over 3 sheets x 2+2+1 tables with symbolic names resolve to exactly the "
     "stored table; whole-column references by header label (real ScopedNameRefCache) over 3 tables x 2 labelled columns / rows with six "
-    "symbolic labels resolve - narrower scopes shadowing wider ones - to exactly the stored column.",
+    "symbolic labels (under one or two header rows) resolve - narrower scopes shadowing wider ones - to exactly the stored column; a table "
+    "rename and every real add_table call invalidate the name cache.",
     "trusted: pysym; formula nodes are attribute bags; model stub for names and header cells; outside: row labels, labels with "
     "operator characters or quotes, uuid map from archives, cache invalidation history")
 
@@ -182,7 +184,7 @@ CLAIMED["C15"] = ("DESIGN.md §4 C15 (partial)",
     "Borders only: through the real Table.set_cell_border, model.set_cell_border, cell_for_stroke and CellBorder "
     "setters on a 3x3 table (and a 4x3 table with a merged block) with symbolic positions: a stroke is reported by its cell "
     "and as the opposite side by the neighbour, nothing else changes, and of two overlapping strokes (from either cell "
-    "sharing the edge) the later wins; the real add_stroke run patching for 2..3 strokes of every start and length along a "
+    "sharing the edge) the later wins (sides given singly or as a list); the real add_stroke run patching for 2..3 strokes of every start and length along a "
     "line of 6 cells: the stored runs, read back with 'highest order wins', show at every position the most recent stroke "
     "covering it (saved file agrees with the open document); Style objects: assigning any one of the 16 public attributes stores "
     "exactly it and marks exactly the style archive(s) it lives in for rewriting, a style read from a cell carries attribute by "
